@@ -140,6 +140,10 @@ theorem PodsGood.micro {j0 jo : JobObj} {sp s s' : Sys} (h : PodsGood j0 s) (hjo
     rcases apiUpdateJobStatus_spec s jo { jo with job := (sync sp jo).2.1 } with hs | ⟨c, _, _, hs⟩
     · exact h.frame hs
     · exact h.of_pods hs.static (by rw [hs.pods]; exact h.pods)
+  | updStatusOn s1 hs1 hs hok =>
+    rcases apiUpdateJobStatus_spec s { jo with rv := updatedRv s jo } { jo with job := (sync sp jo).2.1 } with hs | ⟨c, _, _, hs⟩
+    · exact h.frame hs
+    · exact h.of_pods hs.static (by rw [hs.pods]; exact h.pods)
 
 theorem PodsGood.micros {j0 jo : JobObj} {sp s s' : Sys} (h : PodsGood j0 s) (hjo : VerOK j0 jo)
     (hm : Micros jo sp s s') : PodsGood j0 s' := by
